@@ -21,6 +21,8 @@ pub const SIG_ZERO_ROW: &str = "norm_scaler.zero_row_nan";
 pub const SIG_SUBEPS_STD: &str = "linear_scaler.standard.sub_epsilon_spread_treated_as_constant";
 pub const SIG_SUBEPS_MINMAX: &str = "linear_scaler.minmax.sub_epsilon_spread_treated_as_constant";
 pub const SIG_SUBEPS_MAXABS: &str = "linear_scaler.maxabs.sub_epsilon_spread_treated_as_constant";
+pub const SIG_L2_UNDERFLOW: &str = "norm_scaler.l2.squares_underflow_row_left_unscaled";
+pub const SIG_L2_OVERFLOW: &str = "norm_scaler.l2.squares_overflow_row_zeroed";
 pub const SIG_PCA_CLAMP: &str = "whitener.pca.singular_values_below_1e-8_clamped";
 pub const SIG_ZCA_CLAMP: &str = "whitener.zca.inverse_sqrt_eigenvalue_floored_at_1e-8";
 
@@ -31,18 +33,28 @@ pub trait Fl: Float {
     const EPS: f64;
     const REL: f64;
     const WBASE: f64;
+    /// smallest positive subnormal, smallest positive normal, largest finite value of the type
+    const TINY: f64;
+    const MINPOS: f64;
+    const MAXF: f64;
 }
 impl Fl for f64 {
     const NAME: &'static str = "f64";
     const EPS: f64 = f64::EPSILON;
     const REL: f64 = 1e-9;
     const WBASE: f64 = 1e-8;
+    const TINY: f64 = 5e-324;
+    const MINPOS: f64 = f64::MIN_POSITIVE;
+    const MAXF: f64 = f64::MAX;
 }
 impl Fl for f32 {
     const NAME: &'static str = "f32";
     const EPS: f64 = f32::EPSILON as f64;
     const REL: f64 = 1e-4;
     const WBASE: f64 = 1e-3;
+    const TINY: f64 = 1.401298464324817e-45;
+    const MINPOS: f64 = f32::MIN_POSITIVE as f64;
+    const MAXF: f64 = f32::MAX as f64;
 }
 
 #[derive(Clone, Debug, Serialize, Deserialize, PartialEq)]
@@ -78,6 +90,21 @@ pub struct Case {
     pub cfg: Option<String>,
     #[serde(default)]
     pub ds: Option<DsOpt>,
+    /// memory layout of every record matrix handed to fit / transform: "standard" (row-major owned),
+    /// "col_major" (column-major owned), "transposed_view" (owned copy, with its memory order, of the
+    /// transposed view of a feature-major array), "reversed_rows_view" (same for a reversed-row view)
+    #[serde(default = "standard_layout")]
+    pub layout: String,
+    /// restrict to these configurations (empty = all of the groups)
+    #[serde(default)]
+    pub cfgs: Vec<String>,
+    /// non-empty: the row-wise check uses exactly these rows (single rows, the list as a selection and
+    /// reversed) instead of the full / light menus — for matrices with thousands of rows
+    #[serde(default)]
+    pub rowwise_rows: Vec<usize>,
+}
+pub fn standard_layout() -> String {
+    "standard".to_string()
 }
 
 #[derive(Default)]
@@ -161,6 +188,32 @@ pub fn f64of<F: Fl>(x: F) -> f64 {
 pub fn arr<F: Fl>(m: &Mat, p: usize) -> Array2<F> {
     Array2::from_shape_fn((m.len(), p), |(i, j)| F::cast(m[i][j]))
 }
+/// The logical matrix `m` as an owned array with the strides of the requested memory layout
+/// (`to_owned()` of a contiguous view keeps the view's memory order).
+pub fn arr_l<F: Fl>(m: &Mat, p: usize, layout: &str) -> Array2<F> {
+    use ndarray::{s, ShapeBuilder};
+    let n = m.len();
+    match layout {
+        "col_major" => {
+            let mut v = Vec::with_capacity(n * p);
+            for j in 0..p {
+                for r in m.iter() {
+                    v.push(F::cast(r[j]));
+                }
+            }
+            Array2::from_shape_vec((n, p).f(), v).unwrap()
+        }
+        "transposed_view" => {
+            let fm: Array2<F> = Array2::from_shape_fn((p, n), |(j, i)| F::cast(m[i][j]));
+            fm.t().to_owned()
+        }
+        "reversed_rows_view" => {
+            let rev: Array2<F> = Array2::from_shape_fn((n, p), |(i, j)| F::cast(m[n - 1 - i][j]));
+            rev.slice(s![..;-1, ..]).to_owned()
+        }
+        _ => arr(m, p),
+    }
+}
 pub fn seen<F: Fl>(a: &Array2<F>) -> Mat {
     a.rows().into_iter().map(|r| r.iter().map(|&x| f64of(x)).collect()).collect()
 }
@@ -208,8 +261,18 @@ fn colstats(x: &[f64]) -> ColStats {
 }
 
 /// Selections of rows used by the row-wise map check.
-fn selections(n: usize, full: bool) -> Vec<(&'static str, Vec<usize>)> {
+fn selections(n: usize, full: bool, rows: &[usize]) -> Vec<(&'static str, Vec<usize>)> {
     let mut out: Vec<(&'static str, Vec<usize>)> = Vec::new();
+    if !rows.is_empty() {
+        let rows: Vec<usize> = rows.iter().cloned().filter(|&i| i < n).collect();
+        for &i in &rows {
+            out.push(("single_row", vec![i]));
+        }
+        out.push(("selection", rows.clone()));
+        out.push(("selection", rows.iter().rev().cloned().collect()));
+        out.push(("permutation", (0..n).rev().collect()));
+        return out;
+    }
     for i in 0..n {
         out.push(("single_row", vec![i]));
     }
@@ -240,14 +303,14 @@ fn rowwise<F: Fl>(
     x: &Array2<F>,
     full_out: &Array2<F>,
     tf: &dyn Fn(Array2<F>) -> Array2<F>,
-    full: bool,
+    case: &Case,
     mk: &dyn Fn(Value) -> Value,
     v: &mut Vec<Violation>,
     cnt: &mut Cnt,
 ) {
     let n = x.nrows();
     let p_out = full_out.ncols();
-    for (what, sel) in selections(n, full) {
+    for (what, sel) in selections(n, case.full_rowwise, &case.rowwise_rows) {
         let sub = x.select(Axis(0), &sel);
         let out = match guarded(|| tf(sub)) {
             Ok(o) => o,
@@ -387,6 +450,10 @@ fn run_linear<F: Fl>(
         return;
     }
     let tf = |m: Array2<F>| -> Array2<F> { scaler.transform(m) };
+    let range_factor = match c.kind {
+        Lin::MinMax(lo, hi) => (hi - lo).abs(),
+        _ => 1.0,
+    };
 
     // ---------------- the training matrix ----------------
     let z = match guarded(|| tf(a.clone())) {
@@ -454,7 +521,8 @@ fn run_linear<F: Fl>(
                         continue;
                     }
                     let cond = st.maxabs / st.sd;
-                    let err = 16.0 * F::EPS * cond;
+                    // accumulation over n rows in the subject's float type: the bound grows with n
+                    let err = 16.0 * F::EPS * cond * (n as f64 / 8.0).max(1.0);
                     let target_mean = if with_mean { 0.0 } else { st.mean };
                     let out_sd = if with_std { 1.0 } else { st.sd };
                     let subeps = with_std && st.sd <= F::EPS * (1.0 + 1e-9) && sc[j] == 1.0;
@@ -581,7 +649,9 @@ fn run_linear<F: Fl>(
             for j in 0..p {
                 let (zr, mag) = lin_reference::<F>(c.kind, off[j], sc[j], xsb[i][j]);
                 let got = f64of(zb[(i, j)]);
-                let tol = 8.0 * F::EPS * mag + 1e-300;
+                // 8 * TINY * (1 + range): a subnormal intermediate loses up to half a subnormal ulp,
+                // which the min-max range map multiplies by (max - min)
+                let tol = 8.0 * F::EPS * mag + 8.0 * F::TINY * (1.0 + range_factor) + 1e-300;
                 if !((got - zr).abs() <= tol) {
                     v.push(Violation::new(
                         format!("linear_scaler.{}.transform_differs_from_offsets_scales_map", fam),
@@ -596,7 +666,7 @@ fn run_linear<F: Fl>(
             }
         }
         let prefix = format!("linear_scaler.{}", fam);
-        rowwise(&prefix, xb, &zb, &tf, case.full_rowwise, &|at| mk(tag, at), v, cnt);
+        rowwise(&prefix, xb, &zb, &tf, case, &|at| mk(tag, at), v, cnt);
     }
 }
 
@@ -604,11 +674,20 @@ fn run_linear<F: Fl>(
 // norm scalers
 // ------------------------------------------------------------------------------------------------
 
+/// Reference norm in f64; the l2 norm is computed on the row scaled by its largest element so that
+/// neither 1e300 nor 1e-310 entries overflow / underflow in the reference itself.
 fn ref_norm(kind: &str, r: &[f64]) -> f64 {
+    let m = r.iter().fold(0.0f64, |m, x| m.max(x.abs()));
     match kind {
         "norm_l1" => r.iter().map(|x| x.abs()).sum(),
-        "norm_l2" => r.iter().map(|x| x * x).sum::<f64>().sqrt(),
-        _ => r.iter().fold(0.0, |m, x| m.max(x.abs())),
+        "norm_l2" => {
+            if m == 0.0 || !m.is_finite() {
+                m
+            } else {
+                m * r.iter().map(|x| (x / m) * (x / m)).sum::<f64>().sqrt()
+            }
+        }
+        _ => m,
     }
 }
 
@@ -655,7 +734,53 @@ fn run_norm<F: Fl>(kind: &'static str, case: &Case, mats: &[(Option<&Mat>, &Arra
             }
             let nr = ref_norm(kind, r);
             let nz = ref_norm(kind, zr);
-            let tol = F::REL + 8.0 * F::EPS * p as f64;
+            let mut tol = F::REL + 8.0 * F::EPS * p as f64;
+            if kind == "norm_l2" {
+                // the subject's l2 norm is sqrt(sum x^2) in its own float type: the sum of squares as that
+                // type computes it (same operations, same order)
+                let ss = f64of(r.iter().fold(F::zero(), |acc, &x| {
+                    let t = F::cast(x);
+                    acc + t * t
+                }));
+                let untouched = zr.iter().zip(r.iter()).all(|(a, b)| same_bits(*a, *b));
+                if ss == 0.0 {
+                    cnt.bump("l2_rows_whose_squares_underflow", 1);
+                    if untouched {
+                        v.push(Violation::new(
+                            SIG_L2_UNDERFLOW.to_string(),
+                            format!(
+                                "{} ({}): non-zero row {} = {:?} is returned unchanged (l2 norm {:e}, not 1): the squares underflow to 0 in {}, so the computed norm is 0 and the row is treated as all-zero",
+                                kind, F::NAME, i, r, nz, F::NAME
+                            ),
+                            mk(json!({"op": "postcondition", "row": i, "what": "unit norm"})),
+                        ));
+                        continue;
+                    }
+                } else if !ss.is_finite() {
+                    cnt.bump("l2_rows_whose_squares_overflow", 1);
+                    if zr.iter().all(|t| *t == 0.0) {
+                        v.push(Violation::new(
+                            SIG_L2_OVERFLOW.to_string(),
+                            format!(
+                                "{} ({}): non-zero row {} = {:?} is transformed to all zeros (l2 norm 0, not 1): the squares overflow to inf in {}, so every element is divided by inf",
+                                kind, F::NAME, i, r, F::NAME
+                            ),
+                            mk(json!({"op": "postcondition", "row": i, "what": "unit norm"})),
+                        ));
+                        continue;
+                    }
+                } else if ss < F::MINPOS / F::EPS {
+                    // squares in or next to the subnormal range carry few significant bits: relative error
+                    // bound of the norm = p * (half a subnormal ulp) / sum of squares / 2
+                    let bound = p as f64 * F::TINY / ss;
+                    if bound > 0.01 {
+                        cnt.indet += 1;
+                        cnt.bump("l2_rows_with_subnormal_squares_indeterminate", 1);
+                        continue;
+                    }
+                    tol += bound;
+                }
+            }
             if !((nz - 1.0).abs() <= tol) {
                 v.push(Violation::new(
                     format!("norm_scaler.{}.row_norm_not_one", k),
@@ -666,7 +791,7 @@ fn run_norm<F: Fl>(kind: &'static str, case: &Case, mats: &[(Option<&Mat>, &Arra
             }
             for j in 0..p {
                 let want = r[j] / nr;
-                if !((zr[j] - want).abs() <= 8.0 * F::EPS * (p as f64) * want.abs() + 1e-300) {
+                if !((zr[j] - want).abs() <= (8.0 * F::EPS * (p as f64) + tol - F::REL) * want.abs() + 4.0 * F::TINY + 1e-300) {
                     v.push(Violation::new(
                         format!("norm_scaler.{}.wrong_value", k),
                         format!("{} ({}): row {} = {:?}: element {} is {:e}, expected x / norm = {:e}", kind, F::NAME, i, r, j, zr[j], want),
@@ -680,7 +805,7 @@ fn run_norm<F: Fl>(kind: &'static str, case: &Case, mats: &[(Option<&Mat>, &Arra
             cnt.nontrivial += 1;
         }
         let prefix = format!("norm_scaler.{}", k);
-        rowwise(&prefix, xb, &z, &tf, case.full_rowwise, &mk, v, cnt);
+        rowwise(&prefix, xb, &z, &tf, case, &mk, v, cnt);
     }
 }
 
@@ -780,7 +905,7 @@ fn run_whiten<F: Fl>(
         return;
     }
     let tol = if dom.full_rank {
-        F::WBASE + 64.0 * F::EPS * dom.cond + 16.0 * F::EPS * dom.maxabs / dom.lambda.last().unwrap().sqrt()
+        F::WBASE + (64.0 * F::EPS * dom.cond + 16.0 * F::EPS * dom.maxabs / dom.lambda.last().unwrap().sqrt()) * (n as f64 / 8.0).max(1.0)
     } else {
         f64::INFINITY
     };
@@ -947,7 +1072,7 @@ fn run_whiten<F: Fl>(
             }
         }
         let prefix = format!("whitener.{}", m);
-        rowwise(&prefix, xb, &zb, &tf, case.full_rowwise, &|at| mk(tag, at), v, cnt);
+        rowwise(&prefix, xb, &zb, &tf, case, &|at| mk(tag, at), v, cnt);
     }
 }
 
@@ -969,6 +1094,13 @@ impl<F: Fl> Fitted<F> {
             return Ok(Fitted::Norm(norm_scaler(name)));
         }
         whitener(name).fit(ds).map(Fitted::Wh).map_err(|e| e.to_string())
+    }
+    fn accessor_bits(&self) -> Vec<u64> {
+        match self {
+            Fitted::Lin(s) => s.offsets().iter().chain(s.scales().iter()).map(|&x| f64of(x).to_bits()).collect(),
+            Fitted::Norm(_) => vec![],
+            Fitted::Wh(s) => s.transformation_matrix().iter().chain(s.mean().iter()).map(|&x| f64of(x).to_bits()).collect(),
+        }
     }
     fn tf_arr(&self, x: Array2<F>) -> Array2<F> {
         match self {
@@ -1035,6 +1167,22 @@ fn check_ds<F: Fl, D: Data<Elem = F>, T: AsTargets + Clone + PartialEq + std::fm
             mk("records"),
         ));
     }
+    // memory layout must not matter: same values as the array transform of a standard-layout copy
+    let std_copy: Array2<F> = Array2::from_shape_fn(records.dim(), |ij| records[ij]);
+    if let Ok(want_std) = guarded(|| fitted.tf_arr(std_copy)) {
+        let same = out.records().dim() == want_std.dim()
+            && (0..want_std.nrows()).all(|i| (0..want_std.ncols()).all(|j| same_bits(f64of(out.records()[(i, j)]), f64of(want_std[(i, j)]))));
+        if !same {
+            v.push(Violation::new(
+                format!("{}.layout_dependence", sig_prefix(name)),
+                format!(
+                    "{}: records (layout {}, strides {:?}) of the transformed dataset {:?} differ from the transform of a standard-layout copy of the same records {:?}",
+                    name, case.layout, records.strides(), out.records(), want_std
+                ),
+                mk("layout"),
+            ));
+        }
+    }
     if *out.targets() != targets {
         v.push(Violation::new(format!("{}.dataset.targets_changed", prefix), format!("{}: targets {:?} became {:?}", name, targets, out.targets()), mk("targets")));
     }
@@ -1052,7 +1200,7 @@ fn check_ds<F: Fl, D: Data<Elem = F>, T: AsTargets + Clone + PartialEq + std::fm
 
 fn run_dataset<F: Fl>(case: &Case, v: &mut Vec<Violation>, cnt: &mut Cnt) {
     let opt = case.ds.clone().expect("dataset case without options");
-    let a: Array2<F> = arr(&case.train, case.p);
+    let a: Array2<F> = arr_l(&case.train, case.p, &case.layout);
     let n = a.nrows();
     let p = case.p;
     let weights: Array1<f32> = if opt.weights { Array1::from_iter((0..n).map(|i| 0.5 + i as f32 * 1.25)) } else { Array1::zeros(0) };
@@ -1089,7 +1237,7 @@ fn run_dataset<F: Fl>(case: &Case, v: &mut Vec<Violation>, cnt: &mut Cnt) {
 // ------------------------------------------------------------------------------------------------
 
 fn run_errors<F: Fl>(case: &Case, v: &mut Vec<Violation>, cnt: &mut Cnt) {
-    let a: Array2<F> = arr(&case.train, case.p);
+    let a: Array2<F> = arr_l(&case.train, case.p, &case.layout);
     let xs = seen(&a);
     let p = case.p;
     let names = all_names(case);
@@ -1143,6 +1291,9 @@ fn all_names(case: &Case) -> Vec<&'static str> {
     if has("whiten") {
         names.extend(WHITENERS.iter().cloned());
     }
+    if !case.cfgs.is_empty() {
+        names.retain(|n| case.cfgs.iter().any(|c| c == n));
+    }
     if let Some(only) = &case.cfg {
         names.retain(|n| n == only);
     }
@@ -1151,13 +1302,13 @@ fn all_names(case: &Case) -> Vec<&'static str> {
 
 fn run_fit<F: Fl>(case: &Case, v: &mut Vec<Violation>, cnt: &mut Cnt) {
     let p = case.p;
-    let a: Array2<F> = arr(&case.train, p);
+    let a: Array2<F> = arr_l(&case.train, p, &case.layout);
     let xs = seen(&a);
     let tests: Vec<(Array2<F>, Mat)> = case
         .tests
         .iter()
         .map(|t| {
-            let tb: Array2<F> = arr(t, p);
+            let tb: Array2<F> = arr_l(t, p, &case.layout);
             let ts = seen(&tb);
             (tb, ts)
         })
@@ -1175,10 +1326,89 @@ fn run_fit<F: Fl>(case: &Case, v: &mut Vec<Violation>, cnt: &mut Cnt) {
         }
         run_norm::<F>(k, case, &mats, v, cnt);
     }
-    if WHITENERS.iter().any(|w| names.contains(w)) {
-        let dom = whiten_domain(&xs, p);
+    let dom = if WHITENERS.iter().any(|w| names.contains(w)) { Some(whiten_domain(&xs, p)) } else { None };
+    if let Some(dom) = &dom {
         for &w in WHITENERS.iter().filter(|w| names.contains(*w)) {
-            run_whiten::<F>(w, case, &a, &xs, &tests, &dom, v, cnt);
+            run_whiten::<F>(w, case, &a, &xs, &tests, dom, v, cnt);
+        }
+    }
+    if case.layout != "standard" && !xs.is_empty() {
+        layout_independence::<F>(case, &names, &a, &tests, dom.as_ref().map_or(false, |d| d.full_rank), v, cnt);
+    }
+}
+
+fn sig_prefix(name: &str) -> String {
+    if let Some(c) = LINS.iter().find(|c| c.name == name) {
+        format!("linear_scaler.{}", c.fam)
+    } else if let Some(k) = name.strip_prefix("norm_") {
+        format!("norm_scaler.{}", k)
+    } else {
+        format!("whitener.{}", name.strip_prefix("whiten_").unwrap_or(name))
+    }
+}
+
+/// Memory layout must not matter: one fitted object (fitted on the standard-layout copy) applied to
+/// the same logical matrix in standard layout and in the case's layout gives bit-identical values.
+/// Fitting on the other layout is compared too, but only tallied (ndarray sums a column in a different
+/// order depending on its stride, which may move a mean by an ulp; the post-conditions above already
+/// ran on the fit obtained from the case's layout).
+fn layout_independence<F: Fl>(
+    case: &Case,
+    names: &[&'static str],
+    a: &Array2<F>,
+    tests: &[(Array2<F>, Mat)],
+    whiten_ok: bool,
+    v: &mut Vec<Violation>,
+    cnt: &mut Cnt,
+) {
+    let p = case.p;
+    let a_std: Array2<F> = arr(&case.train, p);
+    cnt.bump("layout_strides_differ_from_standard", (a.strides() != a_std.strides()) as u64);
+    for &name in names {
+        if name == "minmax_flipped_5_2" || (name.starts_with("whiten_") && !whiten_ok) {
+            continue;
+        }
+        let ds_std = DatasetBase::from(a_std.view());
+        let Ok(Ok(fitted)) = guarded(|| Fitted::<F>::fit(name, &ds_std)) else { continue };
+        // fit on the laid-out matrix: accessors bit-identical?
+        let ds_lay = DatasetBase::from(a.view());
+        if let Ok(Ok(fl)) = guarded(|| Fitted::<F>::fit(name, &ds_lay)) {
+            if fitted.accessor_bits() == fl.accessor_bits() {
+                cnt.bump("layout_fit_accessors_bit_identical", 1);
+            } else {
+                cnt.bump("layout_fit_accessors_differ_in_rounding_or_more", 1);
+            }
+        }
+        let mut mats: Vec<(Option<&Mat>, Array2<F>, &Array2<F>)> = vec![(None, a_std.clone(), a)];
+        for (tb, ts) in tests {
+            mats.push((Some(ts), arr(ts, p), tb));
+        }
+        for (tag, m_std, m_lay) in mats {
+            cnt.evals += 1;
+            cnt.nontrivial += 1;
+            let (Ok(z_std), Ok(z_lay)) = (guarded(|| fitted.tf_arr(m_std.clone())), guarded(|| fitted.tf_arr(m_lay.clone()))) else { continue };
+            if z_std.dim() != z_lay.dim() {
+                continue; // reported by the shape oracle
+            }
+            let mut bad = None;
+            'cmp: for i in 0..z_std.nrows() {
+                for j in 0..z_std.ncols() {
+                    if !same_bits(f64of(z_std[(i, j)]), f64of(z_lay[(i, j)])) {
+                        bad = Some((i, j));
+                        break 'cmp;
+                    }
+                }
+            }
+            if let Some((i, j)) = bad {
+                v.push(Violation::new(
+                    format!("{}.layout_dependence", sig_prefix(name)),
+                    format!(
+                        "{} ({}): the same fitted object transforms the same logical {}x{} matrix to {:e} at ({}, {}) in standard layout but to {:e} when the matrix is held in layout {} (strides {:?})",
+                        name, F::NAME, z_std.nrows(), p, f64of(z_std[(i, j)]), i, j, f64of(z_lay[(i, j)]), case.layout, m_lay.strides()
+                    ),
+                    case_json(case, name, tag, json!({"op": "layout", "row": i, "column": j})),
+                ));
+            }
         }
     }
 }
